@@ -6,7 +6,7 @@ NOT_APPLICABLE = {
     "C16": "The token-tiling invariant is a pure function of the input string observed on a deterministic token stream; no state, schedule or fault is involved.",
 }
 PENDING = {p: "not claimed yet: the simulated scenario for this property is designed (DESIGN.md section 5) but its check is still being built" for p in
-           ["C08", "C19", "C20"]}
+           ["C08"]}
 
 TEXT = {
     "C04": {
@@ -80,5 +80,17 @@ TEXT = {
         "design_ref": "DESIGN.md section 5 C13",
         "level_text": "Seeded exploration: 0-5 variables whose names collide with names set in the simulated ambient environment and/or the project's .env (the simulator owns the whole process environment of every invocation), values over printable ASCII incl. spaces, $, {, }, {{, #; kinds string, join, exec with surrounding whitespace, failing exec; commands mixing literals with {{.NAME}} references, `echo \"$NAME\"` for every variable and a variable-free line, run through the real CLI with --json (or listed with --vars). Oracle: cmd == textual substitution; the environment echo prints the model value whatever the ambient environment and .env hold; failing exec => error and nothing runs.",
         "level_note": "Trusted: mvdan/sh's echo builtin prints its argument verbatim for the generated value alphabet; the model's join = filepath.Join of absolute arguments.",
+    },
+    "C19": {
+        "technique": "deterministic simulation: seeded action sequences over evolving project trees, per-invocation disk snapshot diff against the action's write frame",
+        "design_ref": "DESIGN.md section 5 C19",
+        "level_text": "Seeded exploration: project trees with decoys x valid / syntactically broken / load-failing spokfiles x sequences of 2-6 invocations over every action and flag combination from the root and nested directories (state created by one action — cache directory, .gitignore lines, a demo spokfile in a nested directory — is present for the next); after every invocation the full snapshot diff of $HOME must lie inside {.spok/** next to the spokfile in use} plus the action's own frame (--fmt: the spokfile, only if it parses and loads; --init: a new spokfile and an appended .gitignore in cwd, nothing if a spokfile exists; everything else: nothing).",
+        "level_note": "Trusted: snapshot comparison (path, mode, content) of the whole simulated $HOME; the side-effect log and control scripts live outside $HOME.",
+    },
+    "C20": {
+        "technique": "deterministic simulation: seeded first and repeated runs under the seeded dag order, report compared with the side-effect log written by the commands",
+        "design_ref": "DESIGN.md section 5 C20",
+        "level_text": "Seeded exploration: spokfiles of 1-5 tasks with marker-printing commands, docstrings, variables, optional default task; sequences of invocations so that skipped tasks appear; the --json document is compared with ground truth that does not come from spok (markers appended to a log by the commands themselves, the abstract program): exactly one document, exactly the closure once each, execution order == log order, skipped flag == no marker, per command cmd/stdout/stderr/status; --quiet prints nothing; --show sorted complete with docstrings; --vars complete; no arguments runs default or lists.",
+        "level_note": "Trusted: the marker log as ground truth for what ran and in which order; whitespace-normalised comparison of the listing tables.",
     },
 }
